@@ -205,6 +205,16 @@ pub fn run(run: &Run) {
             cp += n as u32;
         }
     });
+    {
+        let labels = super::pipe::counted_word_labels();
+        super::pipe::battery(run, "counted_words", &labels, &|s, l| profs.iter().all(|p| match check(*p, s, l) {
+            Ok(()) => true,
+            Err(v) => {
+                run.violate(v);
+                false
+            }
+        }));
+    }
     super::pipe::collisions(run, "fingerprint_collisions", &|s, l| profs.iter().all(|p| match check(*p, s, l) {
         Ok(()) => true,
         Err(v) => {
